@@ -816,6 +816,11 @@ async fn run_substitution_command(
     // TODO(source-info): review this
     let source_info = crate::SourceInfo::from("main");
 
+    // Lines of the substitution's text are numbered onwards from the line of the command
+    // that contains it.
+    let line_delta = shell.call_stack().nested_text_line_delta();
+    shell.increment_interactive_line_offset(line_delta);
+
     // Handle the parse result using default shell behavior.
     shell
         .run_parsed_result(parse_result, &source_info, &params)
